@@ -203,8 +203,6 @@ def _shared_mutable_sites(class_node):
             if isinstance(t, _ast.Name) and mutable:
                 attrs[t.id] = st
     out = []
-    if not attrs:
-        return out
     init = next((f for f in class_node.body if isinstance(f, _ast.FunctionDef) and f.name == "__init__"), None)
     rebound = set()
     if init is not None:
@@ -228,8 +226,38 @@ def _shared_mutable_sites(class_node):
                         d = _util.dotted(t.value) or ""
                         if d.startswith("self.") and d.count(".") == 1:
                             a = d.split(".")[1]
+                    elif isinstance(n, _ast.AugAssign) and isinstance(t, _ast.Attribute) and isinstance(t.value, _ast.Name) and t.value.id == "self" and isinstance(n.op, (_ast.BitOr, _ast.BitAnd, _ast.Sub, _ast.Add, _ast.BitXor)) and f.name != "__init__" or (isinstance(n, _ast.AugAssign) and isinstance(t, _ast.Attribute) and isinstance(t.value, _ast.Name) and t.value.id == "self" and t.attr in attrs and not any(isinstance(p, _ast.Assign) and any(isinstance(pt, _ast.Attribute) and pt.attr == t.attr and isinstance(pt.value, _ast.Name) and pt.value.id == "self" for pt in p.targets) and p.lineno < n.lineno for p in _ast.walk(f))):
+                        # self.s |= other  on a set / list / dict made in the class body mutates THAT object in place
+                        if t.attr in attrs:
+                            a = t.attr
+                            if f.name == "__init__" and a in rebound:
+                                rebound_before = any(isinstance(p, _ast.Assign) and p.lineno < n.lineno and any(isinstance(pt, _ast.Attribute) and pt.attr == a for pt in p.targets) for p in f.body)
+                                if not rebound_before:
+                                    out.append((a, n, f.name))
+                                    a = None
             if a in attrs and a not in rebound:
                 out.append((a, n, f.name))
+    # state written on the CLASS from an instance method:  TrioRunner._token = x  /  type(self)._weight = w
+    cname = class_node.name
+    for f in class_node.body:
+        if not isinstance(f, (_ast.FunctionDef, _ast.AsyncFunctionDef)) or any(isinstance(d, _ast.Name) and d.id == "classmethod" for d in f.decorator_list):
+            continue
+        for n in _ast.walk(f):
+            if isinstance(n, (_ast.Assign, _ast.AugAssign)):
+                for t in n.targets if isinstance(n, _ast.Assign) else [n.target]:
+                    if isinstance(t, _ast.Attribute):
+                        b = t.value
+                        on_class = (isinstance(b, _ast.Name) and b.id == cname) or (isinstance(b, _ast.Call) and isinstance(b.func, _ast.Name) and b.func.id == "type" and len(b.args) == 1 and isinstance(b.args[0], _ast.Name) and b.args[0].id == "self") or (isinstance(b, _ast.Attribute) and b.attr == "__class__" and isinstance(b.value, _ast.Name) and b.value.id == "self")
+                        if on_class:
+                            out.append((t.attr, n, f.name + " (class attribute)"))
+    # a descriptor that keeps the value on ITSELF: one descriptor object serves every instance of the owner class
+    setter = next((f for f in class_node.body if isinstance(f, _ast.FunctionDef) and f.name == "__set__" and len(f.args.args) >= 3), None)
+    if setter is not None:
+        for n in _ast.walk(setter):
+            if isinstance(n, (_ast.Assign, _ast.AugAssign)):
+                for t in n.targets if isinstance(n, _ast.Assign) else [n.target]:
+                    if isinstance(t, _ast.Attribute) and isinstance(t.value, _ast.Name) and t.value.id == "self":
+                        out.append((t.attr, n, "__set__ (descriptor)"))
     return out
 
 
@@ -251,7 +279,12 @@ def _shared_state_check(pid, program, chk):
             continue
         n += 1
         for a, node, fn in _shared_mutable_sites(cls.node):
-            chk.bad("O0.3", cls.qual + "." + fn, "%s mutates self.%s, a mutable object created once in the body of class %s and never re-bound in its constructor: all instances share (and extend) that one object" % (fn, a, cls.qual.split(":")[-1]), node=node, stmt="shared-mutable %s" % a)
+            if fn.endswith("(class attribute)"):
+                chk.bad("O0.3", cls.qual + "." + fn.split(" ")[0], "%s stores %s on the CLASS %s (not on the instance): every instance -- every runtime, pool or formatter of the process -- shares the value written last" % (fn.split(" ")[0], a, cls.qual.split(":")[-1]), node=node, stmt="class-level-store %s" % a)
+            elif fn.endswith("(descriptor)"):
+                chk.bad("O0.3", cls.qual + ".__set__", "the descriptor %s keeps the assigned value on itself (self.%s) instead of on the instance it is set for: all instances of the owner class share the value written last" % (cls.qual.split(":")[-1], a), node=node, stmt="descriptor-self-store %s" % a)
+            else:
+                chk.bad("O0.3", cls.qual + "." + fn, "%s mutates self.%s, a mutable object created once in the body of class %s and never re-bound in its constructor: all instances share (and extend) that one object" % (fn, a, cls.qual.split(":")[-1]), node=node, stmt="shared-mutable %s" % a)
     chk.count(n)
     if not any(ob.rule == "O0.3" for ob in chk.obs):
         chk.ok("O0.3", "<anchor files>", "%d classes: no mutable object of a class body is mutated through self without being re-bound per instance" % n)
@@ -345,6 +378,160 @@ def _shared_default_check(pid, program, chk):
     if not any(ob.rule == "O0.4" for ob in chk.obs):
         chk.ok("O0.4", "<anchor files>", "%d functions: no default argument that is one mutable object / package instance is kept or mutated" % n)
     chk.facts["O0.4 functions of the anchor files examined for shared default arguments"] = n
+
+
+LATE_CONTROL = """
+def build(slaves, rules):
+    table = []
+    for demand, slave in slaves:
+        table.append((demand, lambda interval: slave.regulate(interval)))       # late: every entry calls the LAST slave
+    ok = [(d, lambda interval, slave=slave: slave.regulate(interval)) for d, slave in slaves]
+    wrapped = [(s, lambda pool: rule(pool)) for s, rule in rules]               # late, in a comprehension
+    for d, s in slaves:
+        best = min(rules, key=lambda r: r[0] - d)                                # used at once: fine
+    return table, ok, wrapped, best
+
+def twice(children):
+    hit = (c for c in sorted(children) if c.demand > 0)
+    excess = sum(c.demand for c in hit)
+    for c in hit:
+        excess -= c.demand
+    fine = [c for c in children]
+    a = sum(c.demand for c in fine)
+    for c in fine:
+        a -= c.demand
+    return excess, a
+"""
+
+
+def _late_binding_sites(fn_node):
+    """lambdas / nested functions created in a loop or comprehension that read the loop variable when they are CALLED
+    (no default-argument binding) and are kept for later (put into a display that is stored / appended / returned)"""
+    out = []
+    par = {}
+    for p in _ast.walk(fn_node):
+        for c in _ast.iter_child_nodes(p):
+            par[id(c)] = p
+
+    def loop_vars_of(node):
+        vs = set()
+        x = par.get(id(node))
+        while x is not None and x is not fn_node:
+            if isinstance(x, (_ast.For, _ast.AsyncFor)):
+                vs |= {n.id for n in _ast.walk(x.target) if isinstance(n, _ast.Name)}
+            if isinstance(x, (_ast.ListComp, _ast.SetComp, _ast.DictComp, _ast.GeneratorExp)):
+                for g in x.generators:
+                    vs |= {n.id for n in _ast.walk(g.target) if isinstance(n, _ast.Name)}
+            x = par.get(id(x))
+        return vs
+
+    for lam in _ast.walk(fn_node):
+        if not isinstance(lam, (_ast.Lambda, _ast.FunctionDef)) or lam is fn_node:
+            continue
+        lv = loop_vars_of(lam)
+        if not lv:
+            continue
+        params = {a.arg for a in lam.args.args + lam.args.kwonlyargs + lam.args.posonlyargs} | ({lam.args.vararg.arg} if lam.args.vararg else set()) | ({lam.args.kwarg.arg} if lam.args.kwarg else set())
+        body_nodes = [lam.body] if isinstance(lam, _ast.Lambda) else lam.body
+        free = {n.id for b in body_nodes for n in _ast.walk(b) if isinstance(n, _ast.Name) and isinstance(n.ctx, _ast.Load)} - params
+        late = sorted(free & lv)
+        if not late:
+            continue
+        # kept for later: an element of a tuple / list / dict display, or appended / stored / returned / yielded itself;
+        # handed directly to a call (key=..., map, filter, sorted) it is used before the loop moves on
+        up = par.get(id(lam))
+        kept = False
+        if isinstance(lam, _ast.FunctionDef):
+            # a nested def: kept if its name is appended / stored / returned inside the loop
+            uses = [n for n in _ast.walk(fn_node) if isinstance(n, _ast.Name) and n.id == lam.name and isinstance(n.ctx, _ast.Load)]
+            for u in uses:
+                pu = par.get(id(u))
+                if isinstance(pu, (_ast.Tuple, _ast.List, _ast.Dict, _ast.Return, _ast.Yield)) or (isinstance(pu, _ast.Call) and u in pu.args and isinstance(pu.func, _ast.Attribute) and pu.func.attr in ("append", "add", "setdefault", "insert", "extend", "add_constructor")) or (isinstance(pu, _ast.Assign) and isinstance(pu.targets[0], (_ast.Attribute, _ast.Subscript))) or (isinstance(pu, _ast.keyword) and pu.arg in ("constructor", "callback", "target")):
+                    kept = True
+        else:
+            if isinstance(up, (_ast.Tuple, _ast.List, _ast.Dict, _ast.Set)) or (isinstance(up, _ast.Call) and lam in up.args and isinstance(up.func, _ast.Attribute) and up.func.attr in ("append", "add", "setdefault", "insert")) or (isinstance(up, _ast.Assign) and isinstance(up.targets[0], (_ast.Attribute, _ast.Subscript))) or isinstance(up, (_ast.Return, _ast.Yield)) or (isinstance(up, (_ast.ListComp, _ast.SetComp, _ast.GeneratorExp)) and up.elt is lam) or (isinstance(up, _ast.DictComp) and up.value is lam):
+                kept = True
+        if kept:
+            out.append((lam, late))
+    return out
+
+
+_ONE_SHOT = {"reversed", "map", "filter", "zip", "iter", "enumerate"}
+
+
+def _consumed_twice_sites(fn_node):
+    """a local bound once to a one-shot iterator (a generator expression, reversed / map / filter / zip / iter) that is
+    consumed more than once -- the second consumer finds it exhausted"""
+    out = []
+    for st in _ast.walk(fn_node):
+        if isinstance(st, _ast.Assign) and len(st.targets) == 1 and isinstance(st.targets[0], _ast.Name):
+            v = st.value
+            one_shot = isinstance(v, _ast.GeneratorExp) or (isinstance(v, _ast.Call) and isinstance(v.func, _ast.Name) and v.func.id in _ONE_SHOT)
+            if not one_shot:
+                continue
+            nm = st.targets[0].id
+            binds = [n for n in _ast.walk(fn_node) if isinstance(n, _ast.Name) and n.id == nm and isinstance(n.ctx, (_ast.Store, _ast.Del))]
+            if len(binds) != 1:
+                continue
+            consumers = []
+            for n in _ast.walk(fn_node):
+                if isinstance(n, (_ast.For, _ast.AsyncFor)) and isinstance(n.iter, _ast.Name) and n.iter.id == nm:
+                    consumers.append(n)
+                elif isinstance(n, _ast.comprehension) and isinstance(n.iter, _ast.Name) and n.iter.id == nm:
+                    consumers.append(n)
+                elif isinstance(n, _ast.Call) and isinstance(n.func, _ast.Name) and n.func.id in ("sum", "any", "all", "list", "tuple", "set", "sorted", "min", "max", "dict", "frozenset", "len") and any(isinstance(a, _ast.Name) and a.id == nm for a in n.args):
+                    consumers.append(n)
+            def branch_path(node):
+                # the chain of (If node, arm) pairs above a node
+                chain = []
+                def rec(cur, acc):
+                    if cur is node:
+                        chain.extend(acc)
+                        return True
+                    for field, val in _ast.iter_fields(cur):
+                        items = val if isinstance(val, list) else [val]
+                        for it in items:
+                            if isinstance(it, _ast.AST):
+                                nxt = acc + [(id(cur), field)] if isinstance(cur, (_ast.If, _ast.Try, _ast.IfExp)) and field in ("body", "orelse", "handlers") else acc
+                                if rec(it, nxt):
+                                    return True
+                    return False
+                rec(fn_node, [])
+                return chain
+
+            def exclusive(a, b):
+                pa, pb = dict(branch_path(a)), dict(branch_path(b))
+                return any(k in pb and pb[k] != arm for k, arm in pa.items())
+
+            pairs = [(a, b) for i, a in enumerate(consumers) for b in consumers[i + 1:] if not exclusive(a, b)]
+            if pairs:
+                out.append((nm, pairs[0][1], v))
+    return out
+
+
+def _closure_iterator_check(pid, program, chk):
+    """O0.5 (every property): no lambda / nested function that is kept for later reads a loop variable late;
+    O0.6: no one-shot iterator bound to a local is consumed twice"""
+    tree = _ast.parse(LATE_CONTROL)
+    late = [(sorted(v), getattr(l, "lineno", 0)) for f in tree.body if f.name == "build" for l, v in _late_binding_sites(f)]
+    twice = [nm for f in tree.body if f.name == "twice" for nm, _n, _v in _consumed_twice_sites(f)]
+    if sorted(v for v, _l in late) != [["rule"], ["slave"]] or twice != ["hit"]:
+        chk.undecided("O0.5", "<positive control>", "the late-binding / consumed-twice rules do not behave as expected on their control example: %s %s" % (late, twice))
+        return
+    files = set(_anchor_files(pid)) if chk.tier != "thorough" else {".py"}
+    n = 0
+    for fi in list(program.functions.values()):
+        rel = getattr(fi.module, "relpath", "") or ""
+        if not any(rel.endswith(f) for f in files) or fi.parent is not None:
+            continue
+        n += 1
+        for lam, names in _late_binding_sites(fi.node):
+            chk.bad("O0.5", fi.qual, "a %s created in a loop is kept for later but reads the loop variable(s) %s only when it is called: every one of them then sees the value of the LAST iteration (bind it as a default argument)" % ("function" if isinstance(lam, _ast.FunctionDef) else "lambda", names), node=lam, stmt="late-binding %s" % ",".join(names))
+        for nm, node, v in _consumed_twice_sites(fi.node):
+            chk.bad("O0.6", fi.qual, "%s is a one-shot iterator (%s) but is consumed more than once: the second consumer finds it exhausted and does nothing" % (nm, type(v).__name__ if not isinstance(v, _ast.Call) else v.func.id + "(...)"), node=node, stmt="consumed-twice %s" % nm)
+    chk.count(n)
+    if not any(ob.rule in ("O0.5", "O0.6") for ob in chk.obs):
+        chk.ok("O0.5", "<anchor files>", "%d functions: no kept closure reads a loop variable late, no one-shot iterator is consumed twice" % n)
 
 
 def _exercise_anchor_files(pid, program, chk):
@@ -492,6 +679,7 @@ def run_property(pid, tier, seed, repo, replay=None):
         _attribute_check(pid, program, chk)
         _shared_state_check(pid, program, chk)
         _shared_default_check(pid, program, chk)
+        _closure_iterator_check(pid, program, chk)
         # O0.1 (every property): a function the rules interpreted reads a local that no earlier statement on that
         # path has bound -- the anchored code raises UnboundLocalError / NameError instead of doing what the property says
         if not interp.UNBOUND_READS:
